@@ -87,4 +87,29 @@ def deposits (own : Own) (chain : List Block) (w : Wid) : List Deposit :=
         | none => none
       else none)))
 
+-- ------------------------------------------------------------------ observations (GetUtxo item)
+
+/-- what GetUtxo shows of one coin: the fields the harness compares (tx:idx:amt:height:maturity:confs@addr) -/
+structure CoinObs where
+  tx : TxId
+  idx : Nat
+  amt : Nat
+  height : Nat
+  maturity : Nat
+  confs : Nat
+  addr : Addr
+  deriving DecidableEq, Repr, Inhabited
+
+/-- the model's GetUtxo item: read off the unspent index ⋈ credit table at synced height `sync` -/
+def obsM (sync : Nat) (c : Coin) : CoinObs :=
+  ⟨c.tx, c.idx, c.cred.amt, c.blk.height, c.cred.maturity, (confs sync c.blk.height) % 2^32, c.cred.sh⟩
+
+/-- the spec's GetUtxo item for a coin of the ledger of a chain with tip height `tip` -/
+def obsS (p : Params) (tip : Nat) (c : SCoin) : CoinObs :=
+  ⟨c.tx, c.idx, c.amt, c.height, (if c.cb then p.cbMaturity else c.cls.maturity), tip + 1 - c.height, c.addr⟩
+
+/-- the coins GetUtxo must list for wallet `w` (zero-value outputs are not listed) -/
+def utxosOf (own : Own) (chain : List Block) (w : Wid) : List SCoin :=
+  (coinsOfWallet (ledgerOf own chain) w).filter (fun c => decide (c.amt ≠ 0))
+
 end MW.Spec.Chain
